@@ -27,6 +27,7 @@ import (
 	sdkerrors "github.com/cosmos/cosmos-sdk/types/errors"
 	authtypes "github.com/cosmos/cosmos-sdk/x/auth/types"
 	"github.com/cosmos/cosmos-sdk/x/authz"
+	"github.com/cosmos/ibc-apps/middleware/packet-forward-middleware/v8/packetforward"
 	transfertypes "github.com/cosmos/ibc-go/v8/modules/apps/transfer/types"
 	clienttypes "github.com/cosmos/ibc-go/v8/modules/core/02-client/types"
 	channeltypes "github.com/cosmos/ibc-go/v8/modules/core/04-channel/types"
@@ -70,6 +71,9 @@ var pkRollappIDs = []string{"raa_1001-1", "rbb_1002-1"}
 
 const pkUnknownRollapp = "rxx_9009-1"
 
+// sender named in the data of every packet the counterparties send to the hub
+const pkCpSender = "rollapp-side-sender"
+
 type pkH struct {
 	t        *testing.T
 	f        *Fix
@@ -77,11 +81,13 @@ type pkH struct {
 	actors   []sdk.AccAddress // sorted by bech32 string; index NActors is an address without an account
 	actorIdx map[string]int
 	blocked  sdk.AccAddress
+	pfm      []sdk.AccAddress // packet-forward-middleware's intermediate receiver per inbound hub channel (model address 2000+c)
 	relayer  sdk.AccAddress
 	chans    []pkChan
 	denoms   []string // index -> hub denom string
 	denomIdx map[string]int
 	sentPkts map[[2]uint64]channeltypes.Packet
+	fwdOf    map[[2]uint64][2]uint64 // forwarded packet (hub channel, sequence) -> the inbound packet (hub channel, sequence) it forwards
 	recvSeen [][2]uint64
 	sentSeen [][2]uint64
 	nStates  []uint64 // number of state infos per rollapp
@@ -92,7 +98,7 @@ type pkH struct {
 }
 
 func newPkH(t *testing.T, p pkParams) *pkH {
-	h := &pkH{t: t, f: NewFix(t), p: p, actorIdx: map[string]int{}, denomIdx: map[string]int{}, sentPkts: map[[2]uint64]channeltypes.Packet{}}
+	h := &pkH{t: t, f: NewFix(t), p: p, actorIdx: map[string]int{}, denomIdx: map[string]int{}, sentPkts: map[[2]uint64]channeltypes.Packet{}, fwdOf: map[[2]uint64][2]uint64{}}
 	f, app := h.f, h.f.App
 	var as []sdk.AccAddress
 	for i := 0; i <= p.NActors; i++ {
@@ -158,6 +164,13 @@ func newPkH(t *testing.T, p pkParams) *pkH {
 	}
 	for i, c := range h.chans {
 		f.mkChannel(i, c.ClientID, c.Hub, c.Cp)
+		is, err := packetforward.GetReceiver(c.Hub, pkCpSender)
+		if err != nil {
+			t.Fatal(err)
+		}
+		ia := sdk.MustAccAddressFromBech32(is)
+		h.pfm = append(h.pfm, ia)
+		h.actorIdx[is] = 2000 + i
 	}
 	for ri, id := range pkRollappIDs {
 		app.LightClientKeeper.SetCanonicalClient(f.Ctx, id, clients[ri])
@@ -439,6 +452,13 @@ func (h *pkH) memoTok(tok string) string {
 		return `{"eibc":{"fee":"abc"}}`
 	case strings.HasPrefix(tok, "e:"):
 		return fmt.Sprintf(`{"eibc":{"fee":"%s"}}`, tok[2:])
+	case strings.HasPrefix(tok, "fw:"):
+		// packet-forward-middleware: forward the received funds over hub channel c<k>
+		ch := "channel-99"
+		if k := idxTok(tok[3:]); k >= 0 && k < len(h.chans) {
+			ch = h.chans[k].Hub
+		}
+		return fmt.Sprintf(`{"forward":{"receiver":"rollapp-side-receiver","port":"%s","channel":"%s"}}`, pkPort, ch)
 	}
 	return ""
 }
@@ -459,11 +479,26 @@ func (h *pkH) exec(line string) string {
 			denom = fmt.Sprintf("%s/%s/%s", pkPort, c.Cp, h.tracePath(idxTok(m["den"])))
 		}
 		_, to := h.addr(m["to"])
-		data := transfertypes.NewFungibleTokenPacketData(denom, m["amt"], "rollapp-side-sender", to, h.memoTok(m["memo"]))
+		data := transfertypes.NewFungibleTokenPacketData(denom, m["amt"], pkCpSender, to, h.memoTok(m["memo"]))
 		seq := atou(m["seq"])
 		pkt := channeltypes.NewPacket(data.GetBytes(), seq, pkPort, c.Cp, pkPort, c.Hub, clienttypes.NewHeight(1, 1000000), 0)
 		h.noteRecv(uint64(ci), seq)
-		return fx.ibcRecv(pkt, atou(m["ph"]), h.relayer)
+		res := fx.ibcRecv(pkt, atou(m["ph"]), h.relayer)
+		if strings.HasPrefix(m["memo"], "fw:") && res == "async" {
+			// the forwarded packet left the hub from inside the callback
+			if fp, ok := packetFromEvents(pkLastRecvEvents); ok {
+				for k, c2 := range h.chans {
+					if c2.Hub == fp.SourceChannel {
+						h.sentPkts[[2]uint64{uint64(k), fp.Sequence}] = fp
+						h.sentSeen = append(h.sentSeen, [2]uint64{uint64(k), fp.Sequence})
+						h.fwdOf[[2]uint64{uint64(k), fp.Sequence}] = [2]uint64{uint64(ci), seq}
+					}
+				}
+			} else {
+				h.t.Fatalf("recv with forward memo returned a nil acknowledgement but no packet was sent")
+			}
+		}
+		return res
 	case "send":
 		a, _ := h.addr(f[1])
 		ci := idxTok(f[2])
@@ -1017,6 +1052,7 @@ func (h *pkH) snapshot() *pkSnap {
 	}
 	for i, c := range h.chans {
 		accts["e"+strconv.Itoa(i)] = transfertypes.GetEscrowAddress(pkPort, c.Hub)
+		accts["a"+strconv.Itoa(2000+i)] = h.pfm[i]
 	}
 	for n, a := range accts {
 		for _, d := range h.denoms {
@@ -1055,6 +1091,10 @@ func (h *pkH) snapshot() *pkSnap {
 
 var pkRefundErrRe = regexp.MustCompile(`^unable to unescrow tokens, this may be caused by a malicious counterparty module or a bug: please open an issue on counterparty module: spendable balance (\d+)(\S+) is smaller than (\d+)(\S+): insufficient funds$`)
 
+// packet-forward-middleware WriteAcknowledgementForForwardedPacket: the two ways the refund of a forward can fail
+var pkFwdMoveErrRe = regexp.MustCompile(`^failed to send coins from escrow account to refund escrow account: spendable balance (\d+)(\S+) is smaller than (\d+)(\S+): insufficient funds$`)
+var pkFwdBurnErrRe = regexp.MustCompile(`^failed to send coins from escrow to module account for burn: spendable balance (\d+)(\S+) is smaller than (\d+)(\S+): insufficient funds$`)
+
 // errClassOf canonicalises RollappPacket.Error: the texts the unchanged code produces are recognised
 // EXACTLY and named; anything else (e.g. a text carrying process-local data) shows as x<digest>
 func (h *pkH) errClassOf(e string) string {
@@ -1075,6 +1115,16 @@ func (h *pkH) errClassOf(e string) string {
 	if m := pkRefundErrRe.FindStringSubmatch(e); m != nil && m[2] == m[4] {
 		if i, ok := h.denomIdx[m[2]]; ok {
 			return fmt.Sprintf("refund:%s:%s:d%d", m[1], m[3], i)
+		}
+	}
+	for _, x := range []struct {
+		re  *regexp.Regexp
+		cls string
+	}{{pkFwdMoveErrRe, "fwdMove"}, {pkFwdBurnErrRe, "fwdBurn"}} {
+		if m := x.re.FindStringSubmatch(e); m != nil && m[2] == m[4] {
+			if i, ok := h.denomIdx[m[2]]; ok {
+				return fmt.Sprintf("%s:%s:%s:d%d", x.cls, m[1], m[3], i)
+			}
 		}
 	}
 	d := sha256.Sum256([]byte(e))
@@ -1129,6 +1179,9 @@ func (s *pkSnap) render(h *pkH, res string) string {
 	}
 	for i := range h.chans {
 		names = append(names, "e"+strconv.Itoa(i))
+	}
+	for i := range h.chans {
+		names = append(names, "a"+strconv.Itoa(2000+i))
 	}
 	for _, n := range names {
 		var vs []string
